@@ -242,8 +242,47 @@ class _Canon(ast.NodeTransformer):
         return node
 
 
+def _unalias_imports(tree):
+    """`from functools import partial as _partial` -> `from functools import partial` with every `_partial` read as `partial`, when
+    nothing else in the module is called `partial`: rules that recognise a library function by its name see one spelling."""
+    if not isinstance(tree, ast.Module):
+        return tree
+    bound = {}
+    for n in ast.walk(tree):
+        if isinstance(n, ast.Name) and isinstance(n.ctx, (ast.Store, ast.Del)):
+            bound[n.id] = bound.get(n.id, 0) + 1
+        elif isinstance(n, ast.arg):
+            bound[n.arg] = bound.get(n.arg, 0) + 1
+        elif isinstance(n, (ast.FunctionDef, ast.AsyncFunctionDef, ast.ClassDef)):
+            bound[n.name] = bound.get(n.name, 0) + 1
+        elif isinstance(n, (ast.Import, ast.ImportFrom)):
+            for a in n.names:
+                nm = a.asname or a.name.split('.')[0]
+                bound[nm] = bound.get(nm, 0) + 1
+        elif isinstance(n, ast.ExceptHandler) and n.name:
+            bound[n.name] = bound.get(n.name, 0) + 1
+    mapping = {}
+    for st in tree.body:
+        if isinstance(st, ast.ImportFrom) and st.level == 0:
+            for a in st.names:
+                if a.asname and a.asname != a.name and a.name != '*' and bound.get(a.name, 0) == 0 and bound.get(a.asname, 0) == 1 \
+                        and a.name not in mapping.values():
+                    mapping[a.asname] = a.name
+                    a.asname = None
+    if not mapping:
+        return tree
+
+    class T(ast.NodeTransformer):
+        def visit_Name(self, n):
+            if n.id in mapping:
+                return ast.copy_location(ast.Name(id=mapping[n.id], ctx=n.ctx), n)
+            return n
+    return T().visit(tree)
+
+
 def canon(tree):
     t = _Canon().visit(tree)
+    t = _unalias_imports(t)
     ast.fix_missing_locations(t)
     return t
 
